@@ -150,6 +150,19 @@ def loop_case(rng, gates, names):
     suffix.append(Instr('DETECTOR', [1.0, 2.0], [T('rec', 1)] + ([T('rec', n + 1)] if rng.random() < 0.5 else [])))
     if rng.random() < 0.5:
         suffix.append(Instr('OBSERVABLE_INCLUDE', [0.0], [T('rec', 1)]))
+    # annotations after the loop that reach over the whole loop to a pre-loop measurement (their pending record entries keep an
+    # absolute position while the loop's own entries shift with the iterations)
+    if npre and rng.random() < 0.45:
+        per_iter = len(stimtext.to_spec(stimtext.flatten([Instr('REPEAT', body=body, reps=1)]), names, nsweep=0, noise=False).meas_instr)
+        total_loop = per_iter * reps
+        if total_loop + n + npre < (1 << 24) - 2:
+            for _ in range(rng.choice([1, 1, 2])):
+                lb = n + total_loop + rng.randint(1, npre)
+                ts = [T('rec', lb)] + ([T('rec', rng.randint(1, n))] if rng.random() < 0.6 else [])
+                if rng.random() < 0.5:
+                    suffix.append(Instr('OBSERVABLE_INCLUDE', [float(rng.choice([0, 1, 3]))], ts))
+                else:
+                    suffix.append(Instr('DETECTOR', [], ts))
     return prefix + [Instr('REPEAT', body=body, reps=reps)] + suffix
 
 
